@@ -78,12 +78,20 @@ def run(chk):
     ok = rat_equal(inline_node(off_e, {kk: vv for kk, vv in defs.items() if kk not in (startv, endv, k)}), parse_expr(f"{startv} * {k}"))
     chk.ob("O3.1", "offset == start * k", ok, off_e, u(defs.get(off_e.id)) if isinstance(off_e, ast.Name) else u(off_e))
 
+    # the slices tile the corpus only if every client of the TASK gets one: the driver partitions with (task-local index, the task's client count)
+    from rules.C05 import partition_call_rule
+
+    drv_ = repo.module("esrally/driver/driver.py")
+    chk.use(drv_)
+    partition_call_rule(chk, "O3.1", drv_)
+
     # ---- O3.2 both consumers slice identically ---------------------------------------------------------------------------------------------------
     chk.rule("O3.2", "the call of bounds() in the reader factory and in the bulk counter pass role-identical arguments; results are unpacked in the returned order; values flow to the reader and "
              "slice parameters of the same meaning; the partition source hands the same (start, end, total, bulk size) to both", 10,
              "the ingest-percentage cut-off counts bulks of other slices / another bulk size: the group stops early or late")
     cr = pr.func("create_readers")
     nb = pr.func("number_of_bulks")
+    OFF = DOCS = LINES = None
     for f, names in ((cr, ("start_client_index", "end_client_index", "num_clients")), (nb, None)):
         calls = [c for c in source.calls_in(f) if last_attr(c.func) == "bounds"]
         if not calls:
@@ -105,11 +113,22 @@ def run(chk):
         st = source.enclosing_stmt(c)
         if isinstance(st, ast.Assign) and isinstance(st.targets[0], ast.Tuple):
             names_ = [u(t) for t in st.targets[0].elts]
-            ok = (names_ == ["offset", "num_docs", "num_lines"]) if f is cr else (names_[1] == "num_docs" and names_[0] == "_" and names_[2] == "_")
+            reads = {n.id for n in walk_body(f) if isinstance(n, ast.Name) and isinstance(n.ctx, ast.Load)}
+            if f is cr:
+                # positions are the roles (offset, docs, lines); three distinct plain names, each consumed below
+                ok = len(names_) == 3 and len(set(names_)) == 3 and all(isinstance(t, ast.Name) for t in st.targets[0].elts)
+                OFF, DOCS, LINES = names_ if ok else (None, None, None)
+            else:
+                # the counter consumes the document count (position 1) and nothing else of the triple
+                ok = len(names_) == 3 and names_[1] in reads and names_[0] not in reads and names_[2] not in reads
             chk.ob("O3.2", f"{f.name}: result unpacked as (offset, docs, lines)", ok, st, f"{names_}")
     cdr = pr.func("create_default_reader")
     rc = [c for c in source.calls_in(cr) if u(c.func) == "create_reader"]
-    ok = bool(rc) and [u(a) for a in rc[0].args[:6]] == ["docs", "offset", "num_lines", "num_docs", "batch_size", "bulk_size"] and params_of(cdr)[:6] == ["docs", "offset", "num_lines", "num_docs", "batch_size", "bulk_size"]
+    crp = params_of(cr)
+    rloop = source.enclosing(rc[0], ast.For) if rc else None
+    rdv = rloop.target.id if rloop is not None and isinstance(rloop.target, ast.Name) else "docs"
+    ok = bool(rc) and [u(a) for a in rc[0].args[:6]] == [rdv, OFF, LINES, DOCS, "batch_size", "bulk_size"] and {"batch_size", "bulk_size"} <= set(crp) \
+        and params_of(cdr)[:6] == ["docs", "offset", "num_lines", "num_docs", "batch_size", "bulk_size"]
     chk.ob("O3.2", "reader factory receives (docs, offset, lines, docs count, batch, bulk) under the parameters of the same meaning", ok, rc[0] if rc else cr, "")
     sl = [c for c in source.calls_in(cdr) if last_attr(c.func) == "Slice"]
     S = pr.cls("Slice")
@@ -138,7 +157,8 @@ def run(chk):
     ok = b1.get("bulk_size") == b2.get(nbp[4]) == "self.bulk_size" and b1.get("batch_size") == "self.batch_size"
     chk.ob("O3.2", "reader and counter use the same bulk size (not the batch size)", ok, c2[0], f"readers bulk_size={b1.get('bulk_size')} batch_size={b1.get('batch_size')}; counter bulk size={b2.get(nbp[4])}")
     idefs = local_defs(ii)
-    ok = u(idefs.get("start_index")) == "self.partitions[0]" and u(idefs.get("end_index")) == "self.partitions[-1]" and any(
+    a_start, a_end = bind_args(c2[0], nb, skip_self=False).get(nbp[1]), bind_args(c2[0], nb, skip_self=False).get(nbp[2])
+    ok = a_start is not None and a_end is not None and source.inline(a_start, idefs) == "self.partitions[0]" and source.inline(a_end, idefs) == "self.partitions[-1]" and any(
         isinstance(x, ast.Assign) and is_self_attr(x.targets[0], "partitions") and u(x.value) == "sorted(self.partitions)" for x in walk_body(ii))
     chk.ob("O3.2", "start/end are the first/last of the sorted partition list", ok, ii, "")
     # pass-through in bulk_data_based
